@@ -27,6 +27,13 @@ def marker_consts(b, op):
 
 
 def run(ctx):
+    # the fingerprint in the header is the fingerprint of the fullnames the parser resolves (shared with C07 / C08)
+    from . import c07
+    rn_ = fn_by_label(ctx.f, c07.PM + 'SchemaConstructionState::register_node')
+    if rn_ is not None:
+        fam_ = [rn_] + ctx.f.closures_of(rn_)
+        c07.nsarg(ctx, rn_, fam_)
+        c07.namekey(ctx, rn_, fam_)
     f = ctx.f
     w = fn_by_label(f, 'single_object_encoding::to_single_object')
     if w is None:
